@@ -2139,6 +2139,11 @@ namespace bloch::runtime {
         }
         if (auto lit = dynamic_cast<LiteralExpression*>(e)) {
             Value v;
+            auto outOfRange = [&](const char* what) {
+                return BlochError(ErrorCategory::Runtime, lit->line, lit->column,
+                                  std::string(what) + " literal '" + lit->value +
+                                      "' is out of range");
+            };
             if (lit->literalType == "bit") {
                 v.type = Value::Type::Bit;
                 v.bitValue = std::stoi(lit->value);
@@ -2157,7 +2162,11 @@ namespace bloch::runtime {
                 }
             } else if (lit->literalType == "float") {
                 v.type = Value::Type::Float;
-                v.floatValue = std::stof(lit->value);
+                try {
+                    v.floatValue = std::stof(lit->value);
+                } catch (const std::exception&) {
+                    throw outOfRange("float");
+                }
             } else if (lit->literalType == "string") {
                 v.type = Value::Type::String;
                 if (lit->value.size() >= 2)
@@ -2172,7 +2181,11 @@ namespace bloch::runtime {
                     v.charValue = '\0';
             } else {
                 v.type = Value::Type::Int;
-                v.intValue = std::stoi(lit->value);
+                try {
+                    v.intValue = std::stoi(lit->value);
+                } catch (const std::exception&) {
+                    throw outOfRange("int");
+                }
             }
             return v;
         } else if (auto paren = dynamic_cast<ParenthesizedExpression*>(e)) {
